@@ -309,8 +309,14 @@ func (s *server) processChunkWithReordering(stream clusterv1.ChunkedSyncService_
 	buffer.lastActivity = time.Now()
 
 	if req.ChunkIndex == buffer.expectedIndex {
+		accepted := session.chunksReceived
 		if processErr := s.processExpectedChunk(stream, session, req); processErr != nil {
 			return processErr
+		}
+		if session.chunksReceived == accepted {
+			// The chunk was rejected (checksum mismatch): the sender retries the same index,
+			// so it must stay the expected one instead of being taken for a duplicate.
+			return nil
 		}
 		buffer.expectedIndex++
 
